@@ -170,7 +170,29 @@ impl<'a> G<'a> {
         self.ctx.step(self.eng, &format!("recv expect {} s 0 {}", toi, cls));
     }
     fn end(&mut self) {
+        self.probe();
         self.ctx.end_case(self.eng);
+    }
+    /// registries the per-call line does not show (read from the receiver's Debug output)
+    fn probe(&mut self) {
+        self.ctx.step(self.eng, "recv probe");
+    }
+    fn sleep(&mut self, ms: u64) {
+        self.ctx.step(self.eng, &format!("recv sleep {}", ms));
+    }
+    /// cleanup at which exactly the given objects / unfinished FDT instances have timed out
+    fn cleanup_spec(&mut self, now: i64, tois: &[u128], ids: &[u32]) -> String {
+        let j = |v: Vec<String>| if v.is_empty() { "-".to_string() } else { v.join(",") };
+        let spec = format!("T{}/F{}", j(tois.iter().map(|x| x.to_string()).collect()), j(ids.iter().map(|x| x.to_string()).collect()));
+        self.ctx.step(self.eng, &format!("recv cleanup {} {}", now, spec))
+    }
+    #[allow(clippy::too_many_arguments)]
+    fn cfg2(&mut self, id: &str, me: usize, st_: bool, ot: bool, mc: usize, once: bool, chk: bool, skew: i64, sct: bool, fast: u8) {
+        self.ctx.case(id);
+        self.eng.reset();
+        self.sh = Shadow::default();
+        let op = format!("recv cfg {} {} {} {} {} {} {} {} {}", me, st_ as u8, ot as u8, mc, once as u8, chk as u8, skew, sct as u8, fast);
+        self.ctx.step(self.eng, &op);
     }
 }
 
@@ -421,6 +443,7 @@ pub fn run(ctx: &mut Ctx, eng: &mut dyn Engine) {
     family_second_instance(&mut g, &mut rng, thorough);
     family_registries(&mut g, &mut rng, thorough);
     family_memory(&mut g, &mut rng, thorough);
+    family_review(&mut g, &mut rng, thorough);
     family_malformed(&mut g, &mut rng, thorough);
     family_xml(&mut g, &mut rng, thorough);
     family_fuzz(&mut g, &mut rng, thorough);
@@ -509,6 +532,7 @@ fn expiry_case(g: &mut G, rng: &mut Rng, n: u32, si: usize, skew: i64, sct: bool
                 g.push(&p.0, p.1 + skew);
             }
             g.cleanup(T0 + SEC / 2 + skew, false);
+            g.probe();
             for (i, p) in obj.iter().enumerate() {
                 g.push(&p.0, late + i as i64 * 1000 + skew);
             }
@@ -694,15 +718,24 @@ fn family_registries(g: &mut G, rng: &mut Rng, thorough: bool) {
         g.ctx.nontrivial("fdt-current-cap");
         g.ctx.count("registry:fdt-current");
         for id in 0..14u32 {
-            let f = fdt_xml(&far, &[((100 + id).to_string(), 20)], 16, 8);
+            // distinct Expires: the ExpiresAtHint of `new_object_writer` tells which instance was attached
+            let f = fdt_xml(&ntp_secs(T0 + (100_000 + id as i64) * SEC).to_string(), &[((100 + id).to_string(), 20)], 16, 8);
             for p in fdt_pkts(&f, id, 64, None) {
                 g.push(&p, T0 + id as i64);
             }
         }
         // instance 0..3 were rotated out (cap 10): their TOIs find no FDT; 4..13 do
+        g.probe();
         for id in [0u32, 3, 4, 13] {
-            for p in obj_pkts(100 + id as u128, 20, 16, 8, false, false) {
-                g.push(&p, T0 + 100);
+            // first symbol only: the object stays alive, the probe shows the instance it is attached to
+            for p in obj_pkts(100 + id as u128, 20, 16, 8, false, false).iter().take(1) {
+                g.push(p, T0 + 100);
+            }
+        }
+        g.probe();
+        for id in [0u32, 3, 4, 13] {
+            for p in obj_pkts(100 + id as u128, 20, 16, 8, false, false).iter().skip(1) {
+                g.push(p, T0 + 100);
             }
         }
         g.expect_s(100, "C17:fdt-current-over-10");
@@ -959,6 +992,266 @@ fn family_fuzz(g: &mut G, rng: &mut Rng, thorough: bool) {
         }
         g.ctx.step(g.eng, &format!("recv fzc {}", T0 + SEC));
         fresh_session(g, rng, T0 + 10 * SEC, k, true);
+        g.ctx.end_case(g.eng);
+    }
+}
+
+// ------------------------------------------------------------------------------------------------
+// cases added after the independent review / for the seeded changes
+
+/// EXT_TIME rewritten to carry SCT-High only (HEL 2, use bits 0x8000): legal, whole NTP seconds
+pub fn sct_high_only(d: &[u8]) -> Option<Vec<u8>> {
+    let hdr = d[2] as usize * 4;
+    let mut i = 12;
+    while i + 12 <= hdr.min(d.len()) {
+        if d[i] == 2 && d[i + 1] == 3 && d[i + 2] == 0xC0 && d[i + 3] == 0 {
+            let mut v = d[..i].to_vec();
+            v.extend_from_slice(&[2, 2, 0x80, 0]);
+            v.extend_from_slice(&d[i + 4..i + 8]);
+            v.extend_from_slice(&d[i + 12..]);
+            v[2] -= 1;
+            return Some(v);
+        }
+        // walk the extensions: HET < 128 variable length (HEL words), >= 128 one word
+        i += if d[i] < 128 { (d[i + 1] as usize).max(1) * 4 } else { 4 };
+    }
+    None
+}
+
+fn gzip(data: &[u8]) -> Vec<u8> {
+    use std::io::Write;
+    let mut e = flate2::write::GzEncoder::new(Vec::new(), flate2::Compression::best());
+    e.write_all(data).unwrap();
+    e.finish().unwrap()
+}
+
+fn family_review(g: &mut G, rng: &mut Rng, thorough: bool) {
+    let far = |k: i64| ntp_secs(T0 + (200_000 + k) * SEC).to_string();
+
+    // ---- C19 (seeded C19-1): object announced by a superseded, meanwhile expired instance only
+    for (k, skew_s) in [0i64, 3600, -3600].iter().enumerate() {
+        for sct in [true, false] {
+            let skew = if sct { *skew_s * SEC } else { 0 };
+            g.cfg2(&format!("superseded-expired-{}-sct{}", k, sct as u8), 0, false, true, 1 << 16, true, true, skew, sct, 0);
+            g.ctx.nontrivial(&format!("superseded-expired {} {}", k, sct));
+            g.ctx.count("expiry:superseded-instance");
+            let s = |t: i64| if sct { Some(t) } else { None };
+            // instance 1 (30 s) lists A = 41; instance 2 (far) lists only B = 42
+            let f1 = fdt_xml(&ntp_secs(T0 + 30 * SEC).to_string(), &[("41".to_string(), 40)], 16, 8);
+            for (i, p) in fdt_pkts(&f1, 1, 64, s(T0)).iter().enumerate() {
+                g.push(p, T0 + i as i64 + skew);
+            }
+            let f2 = fdt_xml(&far(1), &[("42".to_string(), 40)], 16, 8);
+            for (i, p) in fdt_pkts(&f2, 2, 64, s(T0 + SEC)).iter().enumerate() {
+                g.push(p, T0 + SEC + i as i64 + skew);
+            }
+            g.probe();
+            // A arrives a minute later: instance 1 has expired on the sender clock, instance 2 does not list it
+            for p in obj_pkts(41, 40, 16, 8, false, false) {
+                g.push(&p, T0 + 60 * SEC + skew);
+            }
+            for p in obj_pkts(42, 40, 16, 8, false, false) {
+                g.push(&p, T0 + 61 * SEC + skew);
+            }
+            g.expect_s(41, "C19");
+            g.expect_c(42, 40, "C19");
+            g.end();
+        }
+    }
+
+    // ---- C19 (seeded C19-3, review): EXT_TIME with SCT-High only; SCT on a subset of an instance's
+    //      packets; one instance with SCT and one without in the same session, under skew
+    for (k, skew_s) in [0i64, 86400, -86400, 40 * 365 * 86400].iter().enumerate() {
+        let skew = *skew_s * SEC;
+        for mode in 0..4u8 {
+            // the shadow receiver comparison needs SCT on every FDT packet: only in mode 0
+            g.cfg2(&format!("sct-variants-{}-mode{}", k, mode), 0, false, true, 1 << 16, true, true, skew, mode == 0, 0);
+            g.ctx.nontrivial(&format!("sct-variants {} {}", k, mode));
+            g.ctx.count("expiry:sct-variants");
+            let f1 = fdt_xml(&ntp_secs(T0 + 30 * SEC).to_string(), &[("51".to_string(), 40)], 16, 8);
+            let pk = fdt_pkts(&f1, 1, 64, Some(T0));
+            let plain = fdt_pkts(&f1, 1, 64, None);
+            for (i, p) in pk.iter().enumerate() {
+                let d = match mode {
+                    0 => sct_high_only(p).unwrap_or_else(|| p.clone()),   // whole-second SCT on every packet
+                    1 => if i == 0 { p.clone() } else { plain[i].clone() }, // first packet only
+                    2 => if i + 1 == pk.len() { p.clone() } else { plain[i].clone() }, // last packet only
+                    _ => plain[i].clone(),                                   // this instance: none
+                };
+                g.push(&d, T0 + i as i64 + skew);
+            }
+            // a second instance WITH SCT listing another object, completed while alive
+            let f2 = fdt_xml(&ntp_secs(T0 + 30 * SEC).to_string(), &[("52".to_string(), 40)], 16, 8);
+            for (i, p) in fdt_pkts(&f2, 2, 64, Some(T0 + SEC)).iter().enumerate() {
+                g.push(p, T0 + SEC + i as i64 + skew);
+            }
+            g.probe();
+            // both objects arrive 10 s and 40 s after T0 on the sender clock
+            for p in obj_pkts(52, 40, 16, 8, false, false).iter().take(1) {
+                g.push(p, T0 + 10 * SEC + skew);
+            }
+            for p in obj_pkts(51, 40, 16, 8, false, false) {
+                g.push(&p, T0 + 40 * SEC + skew);
+            }
+            for p in obj_pkts(52, 40, 16, 8, false, false).iter().skip(1) {
+                g.push(p, T0 + 41 * SEC + skew);
+            }
+            // 52 started through an unexpired instance (SCT, sender time T0+10 < T0+30): delivered, whatever the skew
+            g.expect_c(52, 40, "C19");
+            if mode <= 2 {
+                // 51: instance 1 has an SCT offset; at sender time T0+40 it is expired
+                g.expect_s(51, "C19");
+            }
+            g.end();
+        }
+    }
+
+    // ---- C17 (seeded C17-1): FDT instances announcing an empty document, then the time-outs elapse
+    {
+        let n: u32 = if thorough { 2000 } else { 300 };
+        g.cfg2("empty-fdt-instances", 0, true, true, 1 << 16, true, true, 0, false, 1);
+        g.ctx.nontrivial("empty-fdt-instances");
+        g.ctx.count("memory:empty-fdt");
+        for id in 0..n {
+            let p = mk_pkt(0, Some(id), 64, 64, true, 0, 0, 0, vec![], false, None);
+            g.push(&p, T0 + id as i64);
+        }
+        g.probe();
+        g.cleanup(T0 + n as i64, true);
         g.end();
     }
+
+    // ---- C17 (seeded C17-3, review §3.6): tiny datagrams for a TOI without OTI: the cache accounts
+    //      the whole datagram, the object is abandoned once the limit is reached
+    for mc in [256usize, 1024] {
+        g.cfg2(&format!("tiny-datagrams-cache{}", mc), 2, false, true, mc, true, true, 0, false, 0);
+        g.ctx.nontrivial(&format!("tiny-datagrams {}", mc));
+        g.ctx.count("memory:tiny-datagrams");
+        for i in 0..120u32 {
+            let p = mk_pkt(77, None, 16, 8, false, 0, 0, i % 8, vec![], false, None);
+            g.push(&p, T0 + i as i64);
+        }
+        g.end();
+    }
+
+    // ---- C17 (review (iv)): WHICH activity refreshes the time-out.  40 ms time-outs, real sleeps
+    //      between two groups of pushes; the cleanup names exactly the timed-out objects / instances.
+    {
+        g.cfg2("stale-per-object", 2, true, true, 1 << 16, true, true, 0, false, 2);
+        g.ctx.nontrivial("stale-per-object");
+        g.ctx.count("memory:stale-per-object");
+        // group A: two objects without FDT, one unfinished FDT instance
+        for toi in [61u128, 62] {
+            let p = mk_pkt(toi, None, 16, 8, false, 0, 0, 0, vec![1; 16], false, None);
+            g.push(&p, T0);
+        }
+        let pa = mk_pkt(0, Some(7), 64, 64, true, 128, 0, 0, vec![2; 64], false, None);
+        g.push(&pa, T0);
+        g.sleep(90);
+        // group B: a new object, a new unfinished instance, one more packet for object 62 (refreshes it),
+        // and a complete FDT listing 61: attach_fdt does NOT refresh the time-out of 61
+        let p = mk_pkt(63, None, 16, 8, false, 0, 0, 0, vec![1; 16], false, None);
+        g.push(&p, T0 + 1);
+        let p = mk_pkt(62, None, 16, 8, false, 0, 0, 1, vec![1; 16], false, None);
+        g.push(&p, T0 + 1);
+        let pb = mk_pkt(0, Some(8), 64, 64, true, 128, 0, 0, vec![2; 64], false, None);
+        g.push(&pb, T0 + 1);
+        let f = fdt_xml(&far(2), &[("61".to_string(), 40)], 16, 8);
+        for pk in fdt_pkts(&f, 9, 512, None) {
+            g.push(&pk, T0 + 1);
+        }
+        g.probe();
+        g.cleanup_spec(T0 + 2, &[61], &[7]);
+        g.probe();
+        // 62, 63 and instance 8 are still there
+        let p = mk_pkt(62, None, 16, 8, false, 0, 0, 2, vec![1; 16], false, None);
+        g.push(&p, T0 + 3);
+        g.push(&pb, T0 + 3);
+        g.sleep(90);
+        g.cleanup_spec(T0 + 4, &[62, 63], &[8]);
+        g.end();
+    }
+
+    // ---- C17 (review (ii)): the bytes of an FDT instance are kept without any limit.
+    //      (a) No-Code, cenc null, 300 kB document: modelled, `fb` of the probe
+    {
+        g.cfg2("big-fdt-nocode", 0, false, true, 1 << 16, true, true, 0, false, 0);
+        g.ctx.nontrivial("big-fdt-nocode");
+        g.ctx.count("memory:big-fdt");
+        let files: Vec<(String, usize)> = (0..(if thorough { 6000 } else { 2500 })).map(|i| ((1000 + i).to_string(), 10)).collect();
+        let x = fdt_xml(&far(3), &files, 16, 8);
+        for (i, p) in fdt_pkts_blocks(&x, 1, 1024, 64).iter().enumerate() {
+            g.push(p, T0 + i as i64);
+        }
+        g.end();
+    }
+    //      (b) gzip: 20 kB on the wire inflate to 20 MB held by the FDT writer (oracle only: content
+    //          encodings are outside the modelled stream)
+    {
+        g.cfg2("gzip-fdt-inflates", 0, false, true, 1 << 16, true, true, 0, false, 0);
+        g.ctx.count("memory:gzip-fdt");
+        let mut x = format!("<?xml version=\"1.0\" encoding=\"UTF-8\"?>\n<FDT-Instance Expires=\"{}\"><!--", far(4)).into_bytes();
+        x.extend(std::iter::repeat(b' ').take(if thorough { 60_000_000 } else { 20_000_000 }));
+        x.extend_from_slice(b"--></FDT-Instance>\n");
+        let z = gzip(&x);
+        g.ctx.sample(format!("gzip FDT: {} B on the wire, {} B inflated", z.len(), x.len()));
+        let e = 1024usize;
+        let n = (z.len() + e - 1) / e;
+        for i in 0..n {
+            let en = ((i + 1) * e).min(z.len());
+            let d = mk_pkt_cenc(0, Some(3), e as u16, 4096, z.len() as u64, 0, i as u32, z[i * e..en].to_vec(), Cenc::Gzip);
+            g.fz(&d, T0 + i as i64);
+        }
+        g.ctx.step(g.eng, &format!("recv fzc {}", T0 + SEC));
+        g.ctx.end_case(g.eng);
+    }
+
+    // ---- C17 (review §3.5): one packet per TOI announcing a huge object in small blocks: the block
+    //      table is pre-allocated whatever object_max_cache_size says
+    {
+        let n: u128 = if thorough { 3000 } else { 400 };
+        g.cfg2("huge-announced-small-blocks", 0, false, true, 1024, true, true, 0, false, 0);
+        g.ctx.nontrivial("huge-announced-small-blocks");
+        g.ctx.count("memory:block-table-prealloc");
+        for i in 0..n {
+            let p = mk_pkt(20_000 + i, None, 16, 8, true, 1u64 << 40, 0, 0, rng.bytes(16), false, None);
+            g.push(&p, T0 + i as i64);
+        }
+        g.ctx.end_case(g.eng);
+    }
+}
+
+/// like `fdt_pkts` but partitioned into source blocks of `b` symbols
+pub fn fdt_pkts_blocks(xml: &[u8], id: u32, e: u16, b: u16) -> Vec<Vec<u8>> {
+    let (al, asm, nl, n) = hk::block_partitioning(b as u64, xml.len() as u64, e as u64);
+    let mut out = Vec::new();
+    let mut off = 0usize;
+    for sbn in 0..n {
+        let k = if sbn < nl { al } else { asm };
+        for esi in 0..k {
+            let en = (off + e as usize).min(xml.len());
+            out.push(mk_pkt(0, Some(id), e, b, true, xml.len() as u64, sbn as u32, esi as u32, xml[off..en].to_vec(), false, None));
+            off = en;
+        }
+    }
+    out
+}
+
+#[allow(clippy::too_many_arguments)]
+pub fn mk_pkt_cenc(toi: u128, fdt_id: Option<u32>, e: u16, b: u16, tlen: u64, sbn: u32, esi: u32, payload: Vec<u8>, cenc: Cenc) -> Vec<u8> {
+    let oti = Oti::new_no_code(e, b);
+    let p = hk::PktFields {
+        payload,
+        transfer_length: tlen,
+        esi,
+        sbn,
+        toi,
+        fdt_id,
+        cenc,
+        inband_cenc: true,
+        close_object: false,
+        source_block_length: 0,
+        sender_current_time: false,
+    };
+    hk::new_alc_pkt(&oti, &0u128, TSI, &p, false, st(0))
 }
